@@ -44,7 +44,7 @@ def kernel_sites(rec):
                 continue
             m = RAW_METHODS.search(name)
             if m:
-                out.append((f"{m.group('ty')}::{m.group('m')}", t[6], name))
+                out.append((f"{m.group('ty')}::{m.group('m')}", t[6], name, tuple(t[2]), (bi, m.group('m'))))
                 continue
             m = NT_RAW.search(name)
             if m and m.group("f") in ("wrapping_add", "wrapping_sub", "wrapping_mul", "wrapping_neg", "pow", "abs", "overflowing_add", "overflowing_sub", "overflowing_mul"):
@@ -74,10 +74,12 @@ def kernel_sites(rec):
                             ty = s[2][-1]
                 if ty:
                     ops = None
+                    opname = None
                     for s in blk["s"]:
                         if s[0] == "a" and s[2][0] == "bin" and s[2][-1] == ty:
                             ops = (s[2][2], s[2][3])
-                    out.append((f"{ty}::{k}", t[6], "primitive operator with overflow/zero assert (panics; wraps when overflow checks are off)", ops))
+                            opname = s[2][1]
+                    out.append((f"{ty}::{k}", t[6], "primitive operator with overflow/zero assert (panics; wraps when overflow checks are off)", ops, (bi, opname)))
     # de-duplicate the Div pair (DivisionByZero + Overflow:Div on one line)
     seen, res = set(), []
     for item in out:
@@ -85,14 +87,30 @@ def kernel_sites(rec):
         if (c, ln) in seen:
             continue
         seen.add((c, ln))
-        res.append((c, ln, d, item[3] if len(item) > 3 else None))
+        res.append((c, ln, d, item[3] if len(item) > 3 else None, item[4] if len(item) > 4 else None))
     return res
 
 
-def exemption(rec, construct, ops):
+def exemption(rec, construct, ops, site=None):
     """reasoned exemptions (each re-checked on every run from the instance's own types/operands)"""
-    from .mir import Fn
+    from .mir import Fn, int_range, bin_range, INT_RANGE
     ty = construct.split("::")[0]
+    # (0) value-range argument: the operands are (arithmetic over) values widened from narrower integer types or constants,
+    #     and the mathematical result range fits the operation's type — the assert can never fire, nothing can wrap
+    if site is not None and ops is not None and ty in INT_RANGE:
+        fn = Fn(rec)
+        bi, opname = site
+        tr = INT_RANGE[ty]
+        rs = [int_range(fn, o, bi) or tr for o in ops]
+        res = None
+        if opname in ("abs",) and len(rs) == 1:
+            if rs[0][0] > tr[0]:
+                res = (0, max(abs(rs[0][0]), abs(rs[0][1])))
+        elif opname and len(rs) == 2:
+            res = bin_range(opname, rs[0], rs[1])
+        if res is not None and tr[0] <= res[0] and res[1] <= tr[1] and any(r != tr for r in rs):
+            return (f"value-range argument: operands in {[list(r) for r in rs]} (widened from narrower types / constants), "
+                    f"result in [{res[0]}, {res[1]}] fits {ty}")
     iargs_int = [a for a in rec.get("iargs", []) if a in SQL_INTS]
     # (a) wide accumulator: i128 arithmetic in an aggregate state whose input integer types are all <= 64 bits
     if ty == "i128" and "::aggregate::" in rec["id"] and iargs_int and all(a not in ("i128", "u128") for a in iargs_int):
@@ -135,8 +153,8 @@ def run(ctx):
         sites = []
         for rec in insts:
             r.functions.add(rec["key"])
-            for c, ln, d, ops in kernel_sites(rec):
-                ex = exemption(rec, c, ops)
+            for c, ln, d, ops, site in kernel_sites(rec):
+                ex = exemption(rec, c, ops, site)
                 if ex:
                     if (rec["id"], c) not in exempted:
                         exempted.add((rec["id"], c))
